@@ -146,8 +146,18 @@ def own_array(arr: np.ndarray, how: str, name=None, lens=None) -> Owned:
     raise AssertionError(how)
 
 
+def _meta(o):
+    """Caller-visible metadata of pandas objects (name / names): renaming the caller's
+    object is a modification of the input too."""
+    out = []
+    for w in o.owners + [o.obj]:
+        if type(w).__module__.startswith("pandas"):
+            out.append((type(w).__name__, repr(getattr(w, "name", None)), repr(getattr(w, "names", None))))
+    return tuple(out)
+
+
 def fingerprints(owned_list):
-    return [executor.fingerprint(o.owners) for o in owned_list]
+    return [(executor.fingerprint(o.owners), _meta(o)) for o in owned_list]
 
 
 # ---------------------------------------------------------------------------
@@ -312,6 +322,9 @@ def gen_scenario(scen: Choices, cls, cfg):
             if len(ds["key_kinds"]) > 1 and c == "arrow_chunked":
                 c = "numpy"
             key_cont.append(c)
+    if len(ds["key_kinds"]) == 1 and ds["key_kinds"][0] in ("int", "int_neg") and scen.chance(1, 8):
+        # a named RangeIndex handed over in a mapping under another name (every row its own group)
+        key_cont[0] = "range_index_in_mapping"
     val_cont = []
     for col in ds["cols"]:
         c = VAL_CONTAINERS[scen.draw(len(VAL_CONTAINERS))]
@@ -372,7 +385,10 @@ def execute(sc, sched: Choices, cls, cfg):
     owned_keys = []
     for k, kk in enumerate(ds["key_kinds"]):
         base = gen.build_key(dict(ds, named=False, index="range"), k, None)
-        if key_cont[k] == "categorical":
+        if key_cont[k] == "range_index_in_mapping":
+            ri = pd.RangeIndex(n, name="orig")
+            owned_keys.append(Owned(ri, [ri], "range_index_in_mapping"))
+        elif key_cont[k] == "categorical":
             owned_keys.append(Owned(base, [base], "categorical"))
         elif key_cont[k] == "pandas_str":
             owned_keys.append(Owned(base, [base], "pandas_str"))
@@ -431,6 +447,8 @@ def execute(sc, sched: Choices, cls, cfg):
 
     def keys_obj():
         ks = [o.obj for o in owned_keys]
+        if owned_keys[0].container == "range_index_in_mapping":
+            return {"k": ks[0]}
         return ks[0] if len(ks) == 1 else ks
 
     def values_obj(cols):
